@@ -254,7 +254,7 @@ def _build():
             dev = W.gen_device(rng, mode="virtual", xy_p=0.5)
         else:
             dev = W.gen_device(rng, mode="physical")
-        reg = W.gen_register(rng, n_min=2, n_max=4, dim3_p=0.0)
+        reg = W.gen_register(rng, n_min=2, n_max=4, dim3_p=0.0, int_ids_p=0.15)
         return {"device": dev, "register": reg}
 
     _REG["C13"] = seq_spec(
